@@ -189,6 +189,7 @@ func runProperty(P *Prog, prop, tier string, seed int, verif string) *propResult
 	res := &propResult{}
 	findings := loadFindings(filepath.Join(verif, "known_findings.txt"))
 	var units []*Unit
+	var uncovered []string
 	seen := map[string]bool{}
 	addFn := func(fn *ssa.Function, s *FuncSpec) {
 		k := P.fnKeys[fn]
@@ -215,7 +216,7 @@ func runProperty(P *Prog, prop, tier string, seed int, verif string) *propResult
 			}
 		}
 		if !any && prop == "C08" {
-			addFn(fn, nil)
+			uncovered = append(uncovered, k)
 		}
 	}
 	// lemmas used (transitively)
@@ -299,6 +300,21 @@ func runProperty(P *Prog, prop, tier string, seed int, verif string) *propResult
 	defer os.RemoveAll(scratch)
 	cfg := runCfg{dir: scratch, timeout: timeout, seed: seed, order: order, workers: runtime.NumCPU(), keep: false}
 	dischargeAll(obls, cfg)
+	// vacuity (smoke) checks of the same units: a refuted smoke check means contradictory assumptions
+	var smokes []*Obligation
+	for _, u := range units {
+		if funcs[u.Name] {
+			smokes = append(smokes, u.VC.smokes...)
+		}
+	}
+	dischargeAll(smokes, runCfg{dir: scratch + "/smoke", timeout: 2, seed: seed, order: []string{"z3-new"}, workers: runtime.NumCPU()})
+	var smokeFailed []string
+	for _, o := range smokes {
+		if o.Status != "discharged" {
+			smokeFailed = append(smokeFailed, o.Name)
+			res.lines = append(res.lines, fmt.Sprintf("govc: warning: vacuity check refuted at %s (unreachable code or contradictory assumptions)", o.Name))
+		}
+	}
 
 	// verdicts
 	byBackend := map[string]int{}
@@ -404,6 +420,7 @@ func runProperty(P *Prog, prop, tier string, seed int, verif string) *propResult
 		"checker_cmd":  fmt.Sprintf("govc check -prop %s -tier %s (SSA->SMT-LIB; solvers raced in order %v, timeout %ds each)", prop, tier, order, timeout),
 		"trusted_base": tb, "functions_under_contract": fnames, "by_backend": byBackend, "solver_s": solverS, "slowest": slow,
 		"samples": samples, "known_findings_matched": knownMatched, "bounded": []any{},
+		"smoke_checks": len(smokes), "smoke_refuted": smokeFailed, "functions_not_under_contract": uncovered,
 		"explanation": "every obligation is generated from the SSA of /repo's current working tree and discharged for all inputs and iterations (loops by invariants, recursion by contracts)",
 	}
 	res.ev = &evidence{PropertyID: prop, Tier: tier, Seed: seed, Level: "proof", Coverage: cov, Assumptions: assumptions, Violations: res.violations}
